@@ -134,7 +134,7 @@ Theorem z_ties_by_tree_order t :
   StronglySorted (fun a b => ctx_z a <= ctx_z b) (ctx_neg c ++ ctx_zero c ++ ctx_pos c) /\
   (* and, for each z-index, in tree order *)
   (forall k, filter (fun x => ctx_z x =? k) (ctx_neg c ++ ctx_zero c ++ ctx_pos c) =
-             map node_of (filter (fun x => z_of (binfo x) =? k) cs)).
+             map node_of (filter (fun x => zkey x =? k) cs)).
 Proof.
   intros c cs. split; [apply child_contexts_tree_order|].
   unfold c. rewrite from_box_real. unfold real_node.
